@@ -26,7 +26,7 @@ ASSUMPTIONS = [
     "the host pattern language is Python's re; selection order and whole-string anchoring are what is checked",
 ]
 
-PREFIXES = ["", "/a", "/ab", "/a/b", "/api", "/apix", "/é", "/a.b", "/A", "/Ã©", "/a//b", "/a/./b", "/a/../b", "/.", "/e\u0301"]  # (a prefix is text: nothing in it is resolved)
+PREFIXES = ["", "/a", "/ab", "/a/b", "/api", "/apix", "/é", "/a.b", "/A", "/Ã©", "/a//b", "/a/./b", "/a/../b", "/.", "/e\u0301", "/a%2Fb", "/50%25", "/a%41"]  # (a prefix is text: nothing in it is resolved or unquoted)
 SEGS = ["a", "ab", "b", "api", "apix", ""]
 
 
@@ -42,6 +42,7 @@ def all_paths():
     # a prefix followed by a line break or another control character (sent as %0A ...): not the prefix, not below it
     out |= {p + c + t for p in ("/a", "/api", "/a/b", "/ab") for c in ("\n", "\r", "\r\n", "\x00", "\t", " ", "\x0b", "\u2028") for t in ("", "/x")}
     out |= {"\n", "/\n", "*", "api/x"}
+    out |= {p + t for p in ("/a%2Fb", "/50%25", "/50%", "/a%41", "/aA") for t in ("", "/", "/x")}
     out |= {p + t for p in ("/a//b", "/a/./b", "/a/../b", "/.", "/b", "/a/b") for t in ("", "/", "/x")}
     return sorted(out)
 
@@ -245,6 +246,9 @@ def run_hosts(ctx, patterns, host, apps=None):
     for iface in ("wsgi", "asgi"):
         hit.clear()
         headers = [] if host is None else [("Host", host)]
+        if host is not None and len(host) % 3 == 0:
+            # what other hops wrote into the request says nothing about the host that was asked for
+            headers += [("X-Forwarded-Host", "api.example.com"), ("Forwarded", "host=admin.example.com")]
         if iface == "wsgi":
             res = drivers.run_wsgi(apps["wsgi"], drivers.to_environ(drivers.Req(headers=headers)))
             status, exc = res.code, res.exc
